@@ -20,9 +20,11 @@ for f in sorted(glob.glob(os.path.join(V, 'seeded', '*', 'meta.json'))):
             det.append('**%s**: %d violations, e.g. `%s`' % (k.split(':')[0], v['violations'], (v.get('keys') or ['?'])[0]))
         elif v.get('exit') == 0: det.append('%s: not detected' % k.split(':')[0])
         else: det.append('%s: exit %s' % (k.split(':')[0], v.get('exit')))
+    hist = m.get('history', {}).get('at_seeding_time')
+    if hist: det.append('*at seeding time: %s*' % hist.replace('|', '/'))
     rows.append('| %s | %s | %s |' % (m['id'], first, '; '.join(det) or 'not run'))
 n = len(rows); nd = sum(1 for r in rows if '**C' in r)
-table = '%d seeded changes kept; %d detected by the check of their property (quick tier).\n\n| id | change (first line of the author\'s notes) | verdict of the check(s) |\n|---|---|---|\n' % (n, nd) + '\n'.join(rows)
+table = '%d seeded changes kept; %d detected by the final checks (quick tier; verdicts at seeding time are given where they differ).\n\n| id | change (first line of the author\'s notes) | verdict of the check(s) |\n|---|---|---|\n' % (n, nd) + '\n'.join(rows)
 out = []
 for p in parts:
     s = open(os.path.join(V, 'tools', 'design_parts', p)).read()
